@@ -995,6 +995,9 @@ def run_utilities(ctx):
                 ref = euler_zxz(ang[0], ang[1], ang[2] if k == 3 else 0.0)
                 if not np.allclose(M, ref, atol=1e-13):
                     ctx.violation('euler_matrix', '%d-angles' % k, 'value!=ZXZ-product')
+            Mn = U.euler_matrix(ang[0], None, ang[2])       # a missing middle angle counts as zero
+            if np.shape(Mn) != (3, 3) or not np.allclose(Mn, euler_zxz(ang[0], 0.0, ang[2]), atol=1e-13):
+                ctx.violation('euler_matrix', 'theta=None', 'value!=ZXZ-product')
             M1 = U.euler_matrix(ang[0])
             if not np.allclose(M1, rot2(ang[0]), atol=1e-13):
                 ctx.violation('euler_matrix', '1-angle', 'value!=2d-rotation')
@@ -1022,8 +1025,13 @@ def run_utilities(ctx):
                 ctx.violation('axis_rotation', 'bulk;shifted-centre', 'shift-along-the-axis-matters')
             for d in (2, 3):
                 f = rvec(rng, d)
-                kind = rep % 4
-                if kind == 0:
+                kind = rep % 5
+                if kind == 4:
+                    # exactly perpendicular (dot product exactly zero): integer vectors, both senses of rotation
+                    a_, b_ = [int(v) for v in rng.integers(1, 6, size=2)]
+                    f = np.array([a_, b_, 0][:d], dtype=float) * [1.0, -1.0][int(rng.integers(0, 2))]
+                    t = np.array([-b_, a_, 0][:d], dtype=float) * [1.0, -1.0, 2.5][int(rng.integers(0, 3))]
+                elif kind == 0:
                     t = rvec(rng, d)
                 elif kind == 1:
                     t = f * 1.7 + 1e-9 * rng.normal(size=d)     # nearly collinear
@@ -1032,7 +1040,7 @@ def run_utilities(ctx):
                 else:
                     t = f.copy()
                 R = U.rotation_matrix_from_to(f, t)
-                cfgk = ['generic', 'nearly-collinear', 'nearly-opposite', 'identical'][kind]
+                cfgk = ['generic', 'nearly-collinear', 'nearly-opposite', 'identical', 'exactly-perpendicular'][kind]
                 if not np.all(np.isfinite(R)):
                     ctx.violation('rotation_matrix_from_to', '%dd;%s' % (d, cfgk), 'not-finite')
                     continue
